@@ -1,14 +1,16 @@
 """C01 — broker operations never lose or duplicate a message (in-memory broker)."""
 from ..common import Ctx, Result
 from .. import memrun
-from . import _mem
+from . import _mem, _redis
 
 RULE = ("random histories (5..60 calls) of enqueue / consume (1-3 consumers concurrently, virtual-time timeouts) / ack / nack / "
         "reject / requeue / finish+start / clock advances over 1-2 queues, 3-5 consumers of all three categories with topic "
         "filters, delays and ttl on both sides of the clock; ~13% of the calls are cancelled after 0..5 event-loop iterations "
         "(real task.cancel()); terminal actions only on held messages; distinct by the printed Coq op list; non-trivial = the "
         "history contains a delivery and a terminal action or finish")
-TRUSTED = ["in-memory broker only; Redis and RabbitMQ clients are not covered by this revision of the check"]
+TRUSTED = ["in-memory broker: histories with concurrency and cancellation; Redis client: one client doing one call at a time over "
+           "harness/fakeredis.py, whose command semantics are those of coq/RedisSrv.v (compared on every recorded command stream) "
+           "and are trusted as a description of the real server; the RabbitMQ client is not covered"]
 ASSUMPTIONS = ["clients are well-behaved (fresh ids on enqueue, terminal actions by the holder on held messages)"]
 WHICH = {"C01"}
 
@@ -19,6 +21,8 @@ def run(ctx: Ctx) -> Result:
     res.relations = ["mem_obs: delivered id per poll, abstract state after every call, full messages at the end"]
     hists = [memrun.gen_history(rng, n_ops=rng.randint(5, 60)) for _ in range(ctx.scale(700, 12000))]
     _mem.run_histories(ctx, res, "c01", hists, WHICH, rng)
+    # the Redis client over the fake server: sequential histories, whole command/reply stream against RedisBroker.v
+    _redis.run_seq(ctx, res, "c01r", {"C01"}, "any", 150, 3000, rng)
     return res
 
 
